@@ -1,7 +1,9 @@
-"""C10 - blob exchange, client message layer: any fragmentation of an honest response is received intact.
+"""C10 - blob exchange, message layer: any fragmentation of an honest response / request is received intact; the server
+serves only verified blobs behind an exact header and refuses oversized or malformed requests.
 
 Interpreted from /repo: BlobExchangeClientProtocol.{__init__, data_received, _write}, BlobResponse.deserialize,
-_parse_blob_response, the response message classes.  The blob writer and blob are stubs that record what they are
+_parse_blob_response, the message classes; BlobServerProtocol.{__init__, data_received, handle_request, send_response,
+close}, BlobRequest.deserialize.  Blob writer, blobs, blob manager and transport are stubs that record what they are
 given (what the real writer does with the bytes is C01)."""
 import json
 
@@ -16,15 +18,19 @@ LEVEL_TEXT = ('Bounded model checking of the real client receive path (message l
               'two solver-chosen positions (inside the JSON, header split from body, header glued to body, inside the body) '
               'and fed to the real data_received; it must raise nothing, resolve the response future once with the announced '
               'hash and length, and hand the writer exactly the body bytes in order.  _write is checked separately for every '
-              'announced length, received count and fragment length: it never forwards more than the blob still needs.')
+              'announced length, received count and fragment length: it never forwards more than the blob still needs.  Server: the '
+              'real serialised request cut at every one / two positions, with the requested blob verified or not, listed as completed '
+              'or not, and any sendfile result: one response, availability lists exactly the completed blobs asked for, blob bytes are '
+              'sent once and only for a verified blob after a header naming exactly its hash and length, a failed send closes the '
+              'connection; requests of 1200 bytes or more and a catalogue of malformed requests close it and serve nothing.')
 LEVEL_NOTE = ('Trusted: z3, the interpreter (every path replayed natively), stub transport / writer / blob.  The body is filler that '
               'contains no "}", optionally after a JSON-like prefix from a fixed catalogue; other bodies are OUTSIDE this claim, as '
-              'are the server side, timeouts, keep-alive sequences of several requests, and every misbehaving-peer scenario.')
+              'are timeouts, keep-alive sequences of several requests, and misbehaving peers beyond the malformed-request catalogue.')
 ASSUMPTIONS = ['body content = filler bytes 0x78, optionally preceded by one of a catalogue of JSON-like prefixes (the client '
                're-parses a first body fragment as JSON); other bodies containing "}" are not covered',
                'writer and blob are recording stubs; the response future is the model future of C01']
-OUTSIDE = ['bodies containing "}"', 'server protocol', 'timeouts and connection closing', 'several requests on one connection',
-           'lying peers (wrong hash/length, corrupted, short, excess or unsolicited bytes, malformed or oversized JSON)']
+OUTSIDE = ['bodies containing "}"', 'timeouts (asyncio.wait_for is the identity on an immediately completing stub)', 'several requests on one connection',
+           'lying servers (wrong hash/length, corrupted, short, excess or unsolicited bytes); _download_blob response validation']
 
 BLOB_HASH = 'ab' * 48
 
@@ -181,8 +187,167 @@ def write_clamp(vm):
     return 'ok'
 
 
+# ------------------------------------------------------------------------------------------------ server side
+class StubConnections:
+    def __init__(self):
+        self.sent = 0
+
+    def received_data(self, peer, n):
+        return None
+
+    def sent_data(self, peer, n):
+        self.sent = self.sent + n
+
+    def connection_received(self, peer):
+        return None
+
+    def incoming_connection_lost(self, peer):
+        return None
+
+
+class ServedBlob:
+    def __init__(self, blob_hash, verified, length, send_result, log):
+        self.blob_hash, self.verified, self.length, self.send_result, self.log = blob_hash, verified, length, send_result, log
+
+    def get_is_verified(self):
+        return self.verified
+
+    async def sendfile(self, protocol):
+        self.log.append(('sendfile', self.blob_hash, len(protocol.transport.written)))
+        return self.send_result
+
+
+class StubBlobManager:
+    def __init__(self, blobs, completed):
+        self.blobs, self.completed_blob_hashes = blobs, completed
+        self.connection_manager = StubConnections()
+
+    def get_blob(self, blob_hash, length=None):
+        return self.blobs[blob_hash]
+
+
+class RecordingTransport(StubTransport):
+    def __init__(self):
+        self.closed = False
+        self.written = []
+
+    def write(self, data):
+        self.written.append(data)
+
+
+def make_server(vm, blobs, completed):
+    from lbry.blob_exchange.server import BlobServerProtocol
+    C01_VM[0] = vm
+    LOOP[0] = ModelLoop()
+    p = BlobServerProtocol(LOOP[0], StubBlobManager(blobs, completed), 'bServerAddress')
+    p.transport = RecordingTransport()
+    p.peer_address_and_port = '1.2.3.4:3333'
+    return p
+
+
+OTHER_HASH = 'cd' * 48
+
+
+def serve(vm, cuts):
+    """The real request of a client, cut into fragments; the requested blob is verified or not (symbolic), sendfile reports any
+    result: bytes follow only a header naming exactly that hash and length, only for a verified blob; availability lists only
+    completed blobs; a failed send closes the connection."""
+    from lbry.blob_exchange.serialization import BlobRequest
+    log = []
+    verified = vm.new_bool('blob_is_verified')
+    completed_listed = vm.new_bool('hash_in_completed_set')
+    length = (1, 12345, MAX_BLOB_SIZE)[vm.pick('blob_length', 3)]          # concrete: the header is JSON text
+    sent = vm.new_int('sendfile_result', -1, MAX_BLOB_SIZE)
+    blob = ServedBlob(BLOB_HASH, verified, length, sent, log)
+    p = make_server(vm, {BLOB_HASH: blob}, {BLOB_HASH} if completed_listed else {OTHER_HASH})
+    raw = BlobRequest.make_request_for_blob_hash(BLOB_HASH).serialize()
+    points = [0]
+    for c in range(cuts):
+        k = vm.pick('cut', len(raw) + 1)
+        if k < points[-1]:
+            return 'ok-skip-unordered'
+        points.append(k)
+    points.append(len(raw))
+    for a, b in zip(points, points[1:]):
+        if a == b:
+            continue
+        try:
+            p.data_received(raw[a:b])
+        except Exception as e:
+            return 'VIOLATION: the server raised %s on a fragment of an honest request' % type(e).__name__
+        LOOP[0].drain()
+    if p.buf != b'':
+        return 'VIOLATION: request bytes are left in the buffer after a complete request'
+    sends = [e for e in log if e[0] == 'sendfile']
+    replies = [json.loads(w) for w in p.transport.written]
+    if len(replies) != 1:
+        return 'VIOLATION: %d responses were written for one request' % len(replies)
+    reply = replies[0]
+    if reply.get('available_blobs') != ([BLOB_HASH] if completed_listed else []):
+        return 'VIOLATION: the availability response does not list exactly the completed blobs that were asked for'
+    if verified:
+        if reply.get('incoming_blob') != {'blob_hash': BLOB_HASH, 'length': length}:
+            return 'VIOLATION: the header does not name exactly the hash and length of the blob being sent'
+        if len(sends) != 1 or sends[0][2] != 1:
+            return 'VIOLATION: blob bytes are not sent exactly once, after the header'
+        if (sent <= 0) != p.transport.closed:
+            return 'VIOLATION: a failed send leaves the connection open (or a successful one closes it)'
+        return 'ok-served'
+    if sends:
+        return 'VIOLATION: bytes of a blob that is not verified are sent'
+    if 'incoming_blob' in reply and 'error' not in reply['incoming_blob']:
+        return 'VIOLATION: a header announces a blob the server does not hold verified'
+    if p.transport.closed:
+        return 'VIOLATION: the connection is closed although the request was well formed'
+    return 'ok-not-held'
+
+
+BAD_REQUESTS = [b'{]}', b'\xff\xfe}', b'{"a": 1}', b'{}', b'[1, 2]}', b'{"requested_blob": "x"}{"requested_blob": "y"}', b'}']
+
+
+def refuse(vm):
+    """Oversized or malformed requests: the connection is closed, nothing is served, nothing raises."""
+    log = []
+    p = make_server(vm, {BLOB_HASH: ServedBlob(BLOB_HASH, True, 10, 10, log)}, {BLOB_HASH})
+    kind = vm.pick('kind', len(BAD_REQUESTS) + 1)
+    if kind == len(BAD_REQUESTS):
+        f1 = vm.new_run('first_fragment', 1, 3000, b'x')          # a TCP read is never empty
+        f2 = vm.new_run('second_fragment', 1, 3000, b'x')
+        n1, n2 = len(f1), len(f2)
+        for f in (f1, f2):
+            try:
+                p.data_received(f)
+            except Exception as e:
+                return 'VIOLATION: the server raised %s on an oversized request' % type(e).__name__
+        too_big_first = n1 >= 1200
+        too_big = too_big_first or (n1 + n2 >= 1200)
+        if too_big != p.transport.closed:
+            return 'VIOLATION: the request size cap is not applied at 1200 bytes'
+        if not too_big and len(p.buf) != n1 + n2:
+            return 'VIOLATION: bytes of an incomplete request were dropped'
+        if log or p.transport.written:
+            return 'VIOLATION: something was served for an incomplete request'
+        return 'ok-capped' if too_big else 'ok-buffered'
+    try:
+        p.data_received(BAD_REQUESTS[kind])
+    except Exception as e:
+        return 'VIOLATION: the server raised %s on a malformed request' % type(e).__name__
+    LOOP[0].drain()
+    if not p.transport.closed:
+        return 'VIOLATION: a malformed request does not close the connection'
+    if log or p.transport.written:
+        return 'VIOLATION: something was served for a malformed request'
+    return 'ok-closed'
+
+
+async def _wait_for(aw, timeout):
+    return await aw
+
+
 def sym_setup(vm, job):
+    import asyncio
     vm.register_helper('same_bytes', lambda a, b: vm.truth(vm.eq(a, b)))
+    vm.models[id(asyncio.wait_for)] = lambda vm_, a, k: a[0]          # no timeouts in the model: the awaited stub completes at once
 
 
 class _Native:
@@ -190,11 +355,14 @@ class _Native:
         self.nvm = nvm
 
     def __enter__(self):
+        import asyncio
         self.nvm.same_bytes = lambda a, b: bytes(a) == bytes(b)
-        self.saved = (LOOP[0], C01_VM[0])
+        self.saved = (LOOP[0], C01_VM[0], asyncio.wait_for)
+        asyncio.wait_for = _wait_for
 
     def __exit__(self, *a):
-        LOOP[0], C01_VM[0] = self.saved
+        import asyncio
+        LOOP[0], C01_VM[0], asyncio.wait_for = self.saved
 
 
 def native_setup(nvm, job):
@@ -224,6 +392,14 @@ def jobs(tier):
     if tier == 'thorough':
         out.append(dict(name='fragmented-2cuts-body20', family='fragment', fn='fragmented', args=(20, 2, None), loop_bound=400, max_depth=60,
                         cost=30000, bounds=dict(body_bytes=20, cuts=2, positions='every pair of positions'), must_reach=('ok',)))
+    for cuts in ((1,) if tier == 'quick' else (1, 2)):
+        out.append(dict(name=f'serve-{cuts}cuts', family='serve', fn='serve', args=(cuts,), loop_bound=400, max_depth=60, cost=600 * 300 ** (cuts - 1),
+                        bounds=dict(request='the real serialised client request', cuts=f'{cuts} at every position',
+                                    blob='verified or not, in the completed set or not, length 1 / 12345 / 2 MiB, any sendfile result'),
+                        must_reach=('ok-served', 'ok-not-held')))
+    out.append(dict(name='refuse-bad-requests', family='serve', fn='refuse', args=(), loop_bound=400, max_depth=60, cost=50,
+                    bounds=dict(malformed='catalogue of %d byte strings' % len(BAD_REQUESTS), oversized='two fragments of 1..3000 bytes'),
+                    must_reach=('ok-capped', 'ok-buffered', 'ok-closed')))
     out.append(dict(name='write-clamp', family='write', fn='write_clamp', args=(), loop_bound=100, max_depth=60, cost=10,
                     bounds=dict(length='1..2 MiB', received='0..length', fragment='1..6 MiB'), must_reach=('ok',)))
     return out
@@ -251,7 +427,31 @@ def _buf_not_reset(node):
     return False
 
 
+def _serve_unverified(node):
+    import ast
+    for n in ast.walk(node):
+        if isinstance(n, ast.If) and isinstance(n.test, ast.Call) and isinstance(n.test.func, ast.Attribute) \
+                and n.test.func.attr == 'get_is_verified':
+            n.test = ast.Constant(True)
+            return True
+    return False
+
+
+def _cap_off_by_one(node):
+    import ast
+    for n in ast.walk(node):
+        if isinstance(n, ast.Compare) and isinstance(n.ops[0], ast.GtE) and isinstance(n.comparators[0], ast.Name) \
+                and n.comparators[0].id == 'MAX_REQUEST_SIZE':
+            n.ops[0] = ast.Gt()
+            return True
+    return False
+
+
 CANARIES = [
+    dict(name='server-sends-unverified-blob', target='lbry.blob_exchange.server:BlobServerProtocol.handle_request', mutate=_serve_unverified,
+         job=dict(family='serve', fn='serve', args=(1,), loop_bound=400, max_depth=60)),
+    dict(name='request-cap-off-by-one', target='lbry.blob_exchange.server:BlobServerProtocol.data_received', mutate=_cap_off_by_one,
+         job=dict(family='serve', fn='refuse', args=(), loop_bound=400, max_depth=60)),
     dict(name='write-not-clamped', target='lbry.blob_exchange.client:BlobExchangeClientProtocol._write', mutate=_no_clamp,
          job=dict(family='write', fn='write_clamp', args=(), loop_bound=100, max_depth=60)),
 ]
